@@ -59,8 +59,8 @@ impl Property for C05 {
         sel(&langs)
             .prop_flat_map(move |lang| {
                 let (short, full) = language_char_pools(&lang);
-                // private-use characters are echoed by design (some tables even list them as keys), the
-                // invisible operators are only legal as operators: neither is planted as token text
+                // private-use characters are echoed by design (some tables even list them as keys) and a lone invisible
+                // operator is only legal as an operator: neither is planted as single-character token text
                 let keep = |c: &char| !('\u{E000}'..='\u{F8FF}').contains(c) && !('\u{2061}'..='\u{2064}').contains(c) && !c.is_whitespace() && !c.is_control() && !"<>[]&".contains(*c);
                 let short: Vec<char> = short.into_iter().filter(keep).collect();
                 let full: Vec<char> = full.into_iter().filter(keep).collect();
@@ -72,6 +72,8 @@ impl Property for C05 {
                     2 => random_char().prop_map(|c| MNode::mi(&c.to_string())),
                     4 => token(&TokCfg::plain()),
                     1 => tok_text(),
+                    // invisible operators *inside* the text of a longer token (pasted or generated content): legal token text
+                    1 => (sel(&["a\u{2062}b", "if\u{2063}then", "2\u{2064}1/2", "f\u{2061}x", "x\u{2062}y\u{2062}z", "1\u{2063}2"]), sel(&["mtext", "mi", "mn"])).prop_map(|(t, tag)| MNode::leaf(tag, t)),
                 ]
                 .boxed();
                 let tree = prop_oneof![
